@@ -68,6 +68,35 @@ CLAIMED.update({
             'rate_limit digits bounded; hardware classes stubbed; two recorded known findings (lenient radio URI grammar).', '5 C20'),
 })
 
+CLAIMED.update({
+    'C02': ('proof', 'Sequential fragment of the lifecycle: a real Crazyflie is connected to a device simulator through the real dispatcher; event '
+            'order, connected/fully_connected conditions, link failure or close after every k-th exchanged packet, nothing delivered after the '
+            'first disconnected, reconnect on the same object (also from a connection_lost callback), driver lookup failures, SyncCrazyflie '
+            'open/close return or raise.',
+            'NOT claimed: bounded-time disconnect, freedom from deadlock / dead threads under real interleavings (threads are sequential '
+            'models); device simulator with empty log table and 1-2 parameters; one recorded known finding (duplicate `connected` after an '
+            'interrupted TOC download).', '5 C02'),
+    'C03': ('proof', 'TocFetcher inductive step for any table size / index up to 65535 (V2) and 255 (V1), ignore-step for every other packet, '
+            'element decoders for every name split and type code, whole downloads with duplicated / stale / repeated-info replies, lookup '
+            'agreement, log/param refresh incl. extended-type markers.',
+            'Device answers well-formed entries with valid type codes and unique names; history tables have 0..3 entries (sizes beyond are '
+            'covered by the inductive step contracts); one recorded known finding (extended-type reply matched without command byte).', '5 C03'),
+    'C05': ('proof', 'add_config acceptance iff, V2 create/append enumeration for 0..26 variables, limits, acknowledgement-driven flags for any '
+            'command/status, log data decoding for all types, re-add after reconnect, SyncLogger sessions.',
+            'List lengths enumerated (0..26, complete for one packet); variable types concrete per path; sequential queue; three recorded known '
+            'findings (raw-memory variables, flags not reset across sessions, SyncLogger queue reuse).', '5 C05'),
+    'C16': ('proof', 'Decidable fragment: scaler applies one factor to every translation, shares rotations, modifies no input (incl. the numpy arrays '
+            'inside poses); scale factor identities; deck sensor diagonal constant; aligner applies ONE transformation to all base stations; '
+            'de-flip algebra; isometry defect term.',
+            'float mode R; small numpy model (pyvc/numpy_model.py); least-squares convergence of _find_transformation and scipy Rotation are '
+            'external and NOT claimed (sentence 1 of the property is only covered as far as the de-flip and one-transformation clauses).', '5 C16'),
+    'C18': ('proof', 'CPX header codec for all 65536 header values and all enum combinations; _readData / readPacket proved by loop invariant for '
+            'every payload length and every fragmentation; exhaustive short-stream reassembly; per-function routing; CRTP tunnel both '
+            'directions for all headers and payload lengths 0..30.',
+            'Socket model (recv returns a non-empty prefix) and CPX header layout assumed; little-endian host for the native H code; router '
+            'and receiver threads sequential.', '5 C18'),
+})
+
 NOT_APPLICABLE = {
     'C09': 'convergence/accuracy of an external iterative least-squares solver on vectorised floating-point numpy code; no '
            'contract within reach of the available verifiers expresses or decides it (DESIGN.md section 5 C09)',
